@@ -58,10 +58,15 @@ uint32_t g_base; /* ghost: b1 == g_buf + g_base (set by a ghost assignment befor
                           (g_H[g_k] == __CPROVER_old(g_H[g_k]) && g_H[g_k + 1] == __CPROVER_old(g_H[g_k + 1]))) \
         __CPROVER_ensures(*idx >= __CPROVER_old(*idx) &&                                           \
                           (int64_t) *idx <= VF_MAXI((int64_t) __CPROVER_old(*idx), (int64_t) max_idx)) \
+        /* the stream origin and the entry of the start position (== h) keep their values */      \
+        __CPROVER_ensures(g_H[0] == __CPROVER_old(g_H[0]))                                         \
+        __CPROVER_ensures(g_H[VF_B + (int64_t) __CPROVER_old(*idx)] == __CPROVER_old(g_H[VF_B + *idx])) \
         /* stopped early  <=>  the masked bits matched at *idx (the returned hash includes that byte) */ \
         __CPROVER_ensures(VF_RU_HIT ==> ((__CPROVER_return_value & mask) == (trigger & mask) &&    \
                                          __CPROVER_return_value == g_H[VF_B + *idx + 1]))          \
         __CPROVER_ensures(!VF_RU_HIT ==> __CPROVER_return_value == g_H[VF_B + *idx])               \
+        /* ran to the end: the last position consumed was tested too */                           \
+        __CPROVER_ensures((!VF_RU_HIT && *idx > __CPROVER_old(*idx)) ==> (__CPROVER_return_value & mask) != trigger) \
         /* every position consumed extends the hash stream by the rolling step ... */             \
         __CPROVER_ensures(VF_IN(VF_B + __CPROVER_old(*idx), g_k, VF_B + (int64_t) *idx) ==> VF_DEF(g_buf, g_k)) \
         __CPROVER_ensures((VF_RU_HIT && g_k == VF_B + (int64_t) *idx) ==> VF_DEF(g_buf, g_k))     \
@@ -74,7 +79,9 @@ uint32_t g_base; /* ghost: b1 == g_buf + g_base (set by a ghost assignment befor
                                  (g_H[g_k] == __CPROVER_loop_entry(g_H[g_k]) && g_H[g_k + 1] == __CPROVER_loop_entry(g_H[g_k + 1]))) \
         __CPROVER_loop_invariant((int64_t) i >= (int64_t) vf_i0 &&                                 \
                                  (int64_t) i <= VF_MAXI((int64_t) vf_i0, (int64_t) max_idx))       \
-        __CPROVER_loop_invariant(h == g_H[VF_B + i])                                               \
+        __CPROVER_loop_invariant(h == g_H[VF_B + i] && ((int64_t) i > (int64_t) vf_i0 ==> (h & mask) != trigger)) \
+        __CPROVER_loop_invariant(g_H[VF_B + (int64_t) vf_i0] == __CPROVER_loop_entry(g_H[VF_B + (int64_t) vf_i0]) && \
+                                 g_H[0] == __CPROVER_loop_entry(g_H[0]))                           \
         __CPROVER_loop_invariant(VF_IN(VF_B + vf_i0, g_k, VF_B + i) ==> (VF_DEF(g_buf, g_k) && (g_H[g_k + 1] & mask) != trigger)) \
         __CPROVER_decreases((int64_t) max_idx - (int64_t) i)
 
@@ -133,6 +140,7 @@ uint32_t g_base; /* ghost: b1 == g_buf + g_base (set by a ghost assignment befor
 #define VF_L_RUN0                                                                                  \
         __CPROVER_assigns(i, hash, __CPROVER_object_whole(g_H), state->history, state->hash, *offset) \
         __CPROVER_loop_invariant(i <= g_w && i <= buffer_length && hash == g_H[i])                 \
+        __CPROVER_loop_invariant(i > 0 ==> (hash & mask) != trigger) /* the last position consumed was tested */ \
         __CPROVER_loop_invariant(g_H[0] == __CPROVER_loop_entry(g_H[0]))                           \
         __CPROVER_loop_invariant(VF_HISTEQ)                                                        \
         __CPROVER_loop_invariant(VF_IN(0, g_k, i) ==> (VF_DEF(g_buf, g_k) && (g_H[g_k + 1] & mask) != trigger)) \
@@ -141,7 +149,7 @@ uint32_t g_base; /* ghost: b1 == g_buf + g_base (set by a ghost assignment befor
 /* the piecewise scan loop of _rolling_hash2_run (entered with i == w) */
 #define VF_L_RUN                                                                                   \
         __CPROVER_assigns(i, hash, g_base, __CPROVER_object_whole(g_H))                            \
-        __CPROVER_loop_invariant(i >= g_w && i <= buffer_length && hash == g_H[i])                 \
+        __CPROVER_loop_invariant(i >= g_w && i <= buffer_length && hash == g_H[i] && (hash & mask) != trigger) \
         __CPROVER_loop_invariant(g_H[0] == __CPROVER_loop_entry(g_H[0]))                           \
         __CPROVER_loop_invariant(VF_IN(0, g_k, i) ==> (VF_DEF(g_buf, g_k) && (g_H[g_k + 1] & mask) != trigger)) \
         __CPROVER_decreases((int64_t) buffer_length - (int64_t) i)
@@ -161,6 +169,11 @@ uint32_t g_t;   /* witness table index */
 /* _rolling_hash2_reset: ghost partial-hash stream g_R[i] after i init bytes (g_R[0] = 0) */
 uint64_t g_R[49];
 #define VF_G_RESET(i) g_R[(i) + 1] = VF_ROL64(g_R[(i)], 1) ^ state->table1[init_bytes[(i)]]
+#define VF_L_RESET                                                                                 \
+        __CPROVER_assigns(i, hash, g_R)                                                            \
+        __CPROVER_loop_invariant(i <= g_w && hash == g_R[i] && g_R[0] == 0)                        \
+        __CPROVER_loop_invariant(VF_IN(0, g_k, i) ==> g_R[g_k + 1] == (VF_ROL64(g_R[g_k], 1) ^ g_t1[init_bytes[g_k]])) \
+        __CPROVER_decreases((int64_t) g_w - (int64_t) i)
 #define VF_C_RH_RESET                                                                              \
         __CPROVER_requires(state->w == g_w && g_w >= 1 && g_w <= 48 && g_j < g_w && g_R[0] == 0)   \
         __CPROVER_requires(state->table1 == g_t1)                                                  \
